@@ -116,7 +116,7 @@ func (c *controller) finish(a *actor) {
 const (
 	pollEvery    = 20 * time.Microsecond
 	settleStable = 1500 * time.Microsecond
-	hangAfter    = 3 * time.Second
+	hangAfter    = 2 * time.Second
 )
 
 // settle waits until no actor is running, or nothing changed for settleStable.
@@ -188,6 +188,31 @@ func (c *controller) run(script []Step) {
 			st = script[k]
 		}
 		k++
+		if st.Pick < 0 {
+			// burst: start every goroutine that waits for its next operation, at once
+			var burst []*actor
+			for _, a := range avail {
+				if a.status == stParkStart {
+					burst = append(burst, a)
+				}
+			}
+			if len(burst) > 0 {
+				c.widths = append(c.widths, 1)
+				c.kinds = append(c.kinds, -1)
+				for _, a := range burst {
+					c.log(Ev{K: "start", T: a.id})
+					a.status = stRunning
+				}
+				c.version++
+				c.mu.Unlock()
+				for _, a := range burst {
+					a.wake <- 0
+				}
+				idleSince = time.Now()
+				continue
+			}
+			st.Pick = 0
+		}
 		a := avail[st.Pick%len(avail)]
 		c.widths = append(c.widths, len(avail))
 		c.kinds = append(c.kinds, a.status)
